@@ -573,6 +573,12 @@ func genC05Input(rt *rapid.T, sc *c05Scenario) (topic string, data []byte, desc 
 	case 4:
 		env.Trace = &p2pmsg.TraceContext{TraceId: []byte{1}, SpanId: rapid.SliceOfN(rapid.Byte(), 0, 20).Draw(rt, "span")}
 		muts = append(muts, "env:trace")
+	case 5:
+		// a protobuf type that is registered in the binary but is not a gossip message
+		ng := rapid.SampledFrom([]proto.Message{&p2pmsg.Key{IdentityPreimage: []byte{1}, Key: []byte{2}}, &p2pmsg.KeyShare{}, &p2pmsg.Envelope{Version: p2pmsg.EnvelopeVersion}, &p2pmsg.TraceContext{TraceId: []byte{1}}, &anypb.Any{}, &p2pmsg.GnosisDecryptionKeysExtra{}}).Draw(rt, "nonGossip")
+		a2, _ := anypb.New(ng)
+		env.Message = a2
+		muts = append(muts, "env:nongossip-type")
 	}
 	data, err = proto.Marshal(env)
 	if err != nil {
